@@ -109,4 +109,55 @@ example (f1 : Nat) (as1 : List Term) (e1 : VM.End)
   vm_refines_sld_cut progC queryC2 5
     ⟨fragC.clauses, by decide +kernel, by decide +kernel, by decide +kernel⟩ (by decide) f1 40 as1 _ e1 _ h1 sldC2
 
+/-! ## stage 3a: `call/1`
+
+      p(a).  p(b).
+      q(X) :- G = p(X), call(G).           % the goal is built at run time
+      s(X) :- call((p(X), !)).             % a cut inside call/1 is local to the call
+      s(z).
+      ?- q(X).            two answers a, b
+      ?- s(X).            two answers a, z   (the cut commits p/1 only, not s/1)
+
+  `#eval Driver.C01.vmLine ⟨5, q (v 0), progK⟩` = `specLine … false` = "a C1:q Aa ; a C1:q Ab ; end exhausted",
+  `#eval Driver.C01.vmLine ⟨5, s (v 0), progK⟩` = `specLine … false` = "a C1:s Aa ; a C1:s Az ; end exhausted". -/
+
+def q (a : Term) : Term := .app "q" (.cons a .nil)
+def s (a : Term) : Term := .app "s" (.cons a .nil)
+def eq (a b : Term) : Term := .app "=" (.cons a (.cons b .nil))
+def call1 (a : Term) : Term := .app "call" (.cons a .nil)
+
+def progK : List Term :=
+  [p (.atom "a"), p (.atom "b"),
+   SLD.rule (q (v 0)) (conj (eq (v 1) (p (v 0))) (call1 (v 1))),
+   SLD.rule (s (v 0)) (call1 (conj (p (v 0)) (.atom "!"))),
+   s (.atom "z")]
+
+theorem fragK1 : CallFrag progK (q (v 0)) :=
+  ⟨by decide +kernel, by decide +kernel, by decide +kernel, (fun _ h => by cases h), by decide +kernel⟩
+
+theorem fragK2 : CallFrag progK (s (v 0)) :=
+  ⟨fragK1.clauses, by decide +kernel, by decide +kernel, (fun _ h => by cases h), by decide +kernel⟩
+
+theorem sldK1 : SLD.solveQuery 40 progK (q (v 0)) 5 = some ([q (.atom "a"), q (.atom "b")], .exhausted) := by
+  decide +kernel
+
+theorem sldK2 : SLD.solveQuery 40 progK (s (v 0)) 5 = some ([s (.atom "a"), s (.atom "z")], .exhausted) := by
+  decide +kernel
+
+/-- `G = p(X), call(G)`: the called goal is a variable of the clause, bound at call time -/
+example (f1 : Nat) (as1 : List Term) (e1 : VM.End)
+    (h1 : VM.runQuery f1 progK (Driver.C01.shiftVars 10 (q (v 0))) 5 = some (as1, e1))
+    (hcalls : CallsOK true f1 progK (q (v 0)) 5) :
+    Forall2 (AnsRel (Driver.C01.shiftVars 10 (q (v 0)))) as1 [q (.atom "a"), q (.atom "b")] ∧
+      endAgree e1 .exhausted :=
+  vm_refines_sld_call progK _ 5 fragK1 (by decide) f1 40 as1 _ e1 _ h1 sldK1 hcalls
+
+/-- the cut inside `call/1` is local: the second clause of `s/1` is still tried -/
+example (f1 : Nat) (as1 : List Term) (e1 : VM.End)
+    (h1 : VM.runQuery f1 progK (Driver.C01.shiftVars 10 (s (v 0))) 5 = some (as1, e1))
+    (hcalls : CallsOK true f1 progK (s (v 0)) 5) :
+    Forall2 (AnsRel (Driver.C01.shiftVars 10 (s (v 0)))) as1 [s (.atom "a"), s (.atom "z")] ∧
+      endAgree e1 .exhausted :=
+  vm_refines_sld_call progK _ 5 fragK2 (by decide) f1 40 as1 _ e1 _ h1 sldK2 hcalls
+
 end PrologVerif.Refine.Example
